@@ -3,6 +3,7 @@ package props
 import (
 	"encoding/json"
 	"fmt"
+	"github.com/paulsonkoly/calc/parser"
 	"strings"
 	"testing"
 
@@ -171,6 +172,35 @@ func genMultiLine(t *rapid.T) string {
 	}
 }
 
+// breakLine inserts a line break at a token boundary of a statement (after a
+// comma or an opening bracket half of the time) and returns the new text if
+// the parser still takes it as one statement, else s itself.
+func breakLine(t *rapid.T, s string) string {
+	structural, all := []int{}, []int{}
+	for i := 0; i < len(s); i++ {
+		switch s[i] {
+		case ',', '(', '[', '{':
+			structural = append(structural, i+1)
+			all = append(all, i+1)
+		case ' ', '+', '-', '*', ')', ']':
+			all = append(all, i+1)
+		}
+	}
+	cands := all
+	if len(structural) > 0 && rapid.Bool().Draw(t, "structural") {
+		cands = structural
+	}
+	if len(cands) == 0 {
+		return s
+	}
+	at := cands[rapid.IntRange(0, len(cands)-1).Draw(t, "breakat")]
+	broken := s[:at] + "\n" + s[at:]
+	if ast, perr := parser.Parse(broken); perr == nil && len(ast) == 1 {
+		return broken
+	}
+	return s
+}
+
 func genSep(t *rapid.T) string {
 	s := "\n"
 	for rapid.IntRange(0, 4).Draw(t, "sep") == 0 {
@@ -197,6 +227,11 @@ func c16Prop(rec *ev.Recorder, tb testing.TB) func(t *rapid.T) {
 				// may refer to the environment: keep it self-contained
 				stmt = "{\n" + strings.Join(append(pre, e), "\n") + "\n}"
 			}
+			if rapid.IntRange(0, 2).Draw(t, "break") == 0 {
+				// a line break at some token boundary: wherever the parser takes the text as one statement,
+				// the readers of file and REPL mode have to take it as one statement too
+				stmt = breakLine(t, stmt)
+			}
 			why, skip := c16EvalCheck(tb, stmt)
 			if why != "" {
 				fail(t, "C16", "eval", map[string]any{"stmt": stmt}, "%s\n%s", why, stmt)
@@ -219,6 +254,9 @@ func c16Prop(rec *ev.Recorder, tb testing.TB) func(t *rapid.T) {
 			}
 			if rapid.IntRange(0, 5).Draw(t, "multiline") == 0 {
 				c.Stmts = append(c.Stmts, genMultiLine(t))
+			}
+			if rapid.IntRange(0, 4).Draw(t, "breakline") == 0 {
+				s = breakLine(t, s)
 			}
 			if rapid.IntRange(0, 5).Draw(t, "trail") == 0 && !strings.Contains(s, "\n") {
 				s += " ; trailing \" { ["
